@@ -55,9 +55,11 @@ DecodeRow == /\ rstate = "open"
              /\ IF rrow < Len(file) THEN out' = [more |-> TRUE, r |-> file[rrow + 1]] /\ rrow' = rrow + 1 /\ UNCHANGED rstate
                 ELSE out' = [more |-> FALSE, r |-> 0] /\ rstate' = "done" /\ UNCHANGED rrow
              /\ UNCHANGED <<kind, api, file, wstate, nenc>>
+(* a row read for its geometry alone (DecodeRowFields without field names): the decoder has one cursor, whichever call moves it *)
+DecodeGeom == DecodeRow
 Next == \/ \E k \in Kinds, a \in Apis : Create(k, a)
         \/ \E k \in Kinds : \E r \in Records[k] : Encode(r)
-        \/ CloseW \/ OpenR \/ DecodeRow
+        \/ CloseW \/ OpenR \/ DecodeRow \/ DecodeGeom
 Spec == Init /\ [][Next]_vars
 
 (* order and count are preserved; nothing is read that was not written *)
